@@ -266,6 +266,37 @@ func runC04(c *fw.Ctx) {
 		})
 	}
 
+	for i := 0; i < c.Pick(3000, 30000); i++ { // matrices up to 7x7, batch sizes up to 5
+		c.Case(func(k *fw.K) {
+			dst := RandShape(k.Rng, 0, 2, 5)
+			prs := batchPairs(dst)
+			pr := prs[k.Rng.Intn(len(prs))]
+			k.Count("matmul_big_cases", 1)
+			c04MatMul(k, pr[0], pr[1], 1+k.Rng.Intn(7), 1+k.Rng.Intn(7), 1+k.Rng.Intn(7), true)
+		})
+	}
+	for i := 0; i < c.Pick(1500, 15000); i++ { // Transpose / Dot with sizes up to 7
+		c.Case(func(k *fw.K) {
+			s := BigShape(k.Rng, 2, 400)
+			if k.Rng.Intn(2) == 0 {
+				c04Transpose(k, s)
+				return
+			}
+			srcs := BroadcastSources(s)
+			last := s[len(s)-1]
+			for {
+				sa, sb := srcs[k.Rng.Intn(len(srcs))], srcs[k.Rng.Intn(len(srcs))]
+				if len(sa) < 1 || len(sb) < 1 || sa[len(sa)-1] != last || sb[len(sb)-1] != last {
+					continue
+				}
+				if bs, err := ref.BroadcastShape(sa, sb); err == nil && ref.SameShape(bs, s) {
+					c04Dot(k, sa, sb, true)
+					return
+				}
+			}
+		})
+	}
+
 	// ---- Dot ----
 	for _, dst := range Shapes(1, c.Pick(4, 5), 3) {
 		last := dst[len(dst)-1]
